@@ -434,6 +434,7 @@ def run(ck):
                         "model: %s escapes %s on the witness document, the real parser ends with %s" % (kind, fmt, real[0]),
                         {"kind": "correspondence", "stream": "witness", "format": fmt, "text": text, "model": kind, "real": real[0],
                          "theorem": "DS.Parsers.parse%s_escapes" % fmt.capitalize()}, no_failing_input=True)
+    reuse_texts = {}      # texts of the single-fault stream, a sample of which is also given to a parser object that has read valid files before
     # 4. (a) single-fault corruptions (materialised in batches: the thorough tier runs all of them)
     for fmt in G.FORMATS:
         cases = [(txt, G.mutant_descriptors(txt)) for name, txt in good[fmt]]
@@ -482,6 +483,8 @@ def run(ck):
                     texts.add(t)
             texts = sorted(texts)
             n, h1, res, model = run_stream(ck, tally, "single-fault", fmt, texts)
+            if len(reuse_texts.setdefault(fmt, set())) < 20000:
+                reuse_texts[fmt].update(texts)
             add_hist(hist, h1)
             nrun += n
             nontrivial += sum(1 for r, a in res if r[0] != "ok")
@@ -517,6 +520,41 @@ def run(ck):
         n, hist, res, model = run_stream(ck, tally, "random", fmt, texts)
         nontrivial += sum(1 for r, a in res if r[0] != "ok")
         dist.setdefault(fmt, {})["random"] = dict(hist, _run=n)
+    # 5. (c) one parser object reading several texts in a row: "for any text whatsoever" also holds for a parser that has read
+    # other files before (state kept on the instance between calls)
+    reuse_fail = {}
+    nreuse = 0
+    for fmt in G.FORMATS:
+        pool_ok = [t for _, t in good[fmt]][:4]
+        if not pool_ok:
+            continue
+        cand = sorted(reuse_texts.get(fmt, ()))
+        ck.rng.shuffle(cand)
+        cand = cand[: (250 if ck.tier == "quick" else 3000)]
+        jobs = []
+        for t in cand:
+            k = ck.rng.choice([1, 1, 2])
+            jobs.append((fmt, [ck.rng.choice(pool_ok) for _ in range(k)] + [t], False))
+        res = G.run_many(jobs)
+        hist = {}
+        for (f_, seq, _), (r, _a) in zip(jobs, res):
+            nreuse += 1
+            hist[r[0]] = hist.get(r[0], 0) + 1
+            if r[0] not in ALLOWED:
+                key = "reuse:" + G.failure_key(fmt, r)
+                e = reuse_fail.setdefault(key, [0, fmt, seq, r])
+                e[0] += 1
+                if sum(map(len, seq)) < sum(map(len, e[2])):
+                    e[2], e[3] = seq, r
+        dist.setdefault(fmt, {})["reuse"] = dict(hist, _run=len(jobs))
+    ck.coverage["evaluations"] += nreuse
+    for key, (cnt, fmt, seq, r) in sorted(reuse_fail.items()):
+        # already failing with a fresh parser: reported by the streams above
+        if G.run_one(fmt, seq[-1])[0] not in ALLOWED:
+            continue
+        ck.fail(key, "%s parser object that has read %d valid text(s) before ends with %s (%s) on the next text instead of StructureFormatError "
+                "(a fresh parser object handles that text as documented); %d sequence(s) this run; last text %r" % (fmt, len(seq) - 1, r[1], r[2], cnt, seq[-1][:200]),
+                {"kind": "oracle-reuse", "format": fmt, "texts": seq, "exception": r[1], "message": r[2], "occurrences": cnt})
     # 6. verdicts
     for key, (cnt, fmt, text, inf) in sorted(tally.oracle.items()):
         small = G.shrink(fmt, text, key) if len(text) > 80 else text
@@ -579,6 +617,11 @@ def run(ck):
 def replay(path):
     common.use_repo()
     r = json.load(open(path))
+    if r.get("kind") == "oracle-reuse":
+        kind, cls, msg = G.run_many([(r["format"], r["texts"], False)])[0][0]
+        print("one %s parser object, %d text(s) in a row, outcome of the last: %s %s %s" % (r["format"], len(r["texts"]), kind, cls, msg))
+        G.close_pool()
+        return 0 if kind in ALLOWED else 1
     fmt, text = r.get("format"), r.get("text")
     if fmt is None or text is None:
         print("replay: no input recorded (%s)" % r.get("kind"))
